@@ -68,3 +68,41 @@ func (c *Ctx) lookupByRole(pkg, name string) *types.Func {
 	}
 	return nil
 }
+
+// SigChanged reports whether pkg.name still exists under its reference name but with another signature than
+// on the reference tree (its interface was refactored). Unknown functions report false.
+func (c *Ctx) SigChanged(pkg, name string) bool {
+	want, ok := anchorSigs[pkg+"."+name]
+	if !ok {
+		return false
+	}
+	p := c.Pkgs[pkg]
+	if p == nil {
+		return false
+	}
+	f, _ := p.Types.Scope().Lookup(name).(*types.Func)
+	if f == nil {
+		return false
+	}
+	return SigString(f.Type().(*types.Signature)) != want
+}
+
+// RefParams returns the parameter names and (fully qualified) types pkg.name had on the reference tree.
+func (c *Ctx) RefParams(pkg, name string) (names, typs []string, ok bool) {
+	ps, ok := anchorParams[pkg+"."+name]
+	if !ok {
+		return nil, nil, false
+	}
+	if ps == "" {
+		return nil, nil, true
+	}
+	for _, p := range strings.Split(ps, ";") {
+		i := strings.Index(p, " ")
+		if i < 0 {
+			return nil, nil, false
+		}
+		names = append(names, p[:i])
+		typs = append(typs, p[i+1:])
+	}
+	return names, typs, true
+}
